@@ -42,6 +42,12 @@ CHECKS = {
  "C09": ("fault_enumeration", "per-thread /proc state snapshots and probe syscalls around every call of scripted load histories in fresh child processes", "E6 vchild history + strace", "DESIGN.md 3/C09",
          "Histories of LoadFilter/Supported/SetNoNewPrivs calls run on pinned OS threads of throw-away processes: all single-call combinations of 7 flag words x NNP x 5 policy kinds x {root, uid 65534}, the divergent-filter thread-sync pattern, a thread-sync chain and PRNG histories; Seccomp, Seccomp_filters and NoNewPrivs of every task and the outcome of probe syscalls on every pinned thread are compared before/after each call: nil iff the caller's filter count grew (and all threads match with thread-sync), error implies nothing changed, an Assemble failure leaves NoNewPrivs untouched, Supported() changes nothing. Each way the kernel can decline (assemble error, EINVAL oversize, EINVAL flags, EACCES, thread-sync refusal) must be observed.",
          "The kernel's own per-thread state is the oracle; amd64 host only; strace (sampled) records how the kernel declined."),
+ "C10": ("exploration", "per-thread event logs ordered by an atomic 'loaded' flag, checked offline; /proc task state at load; race detector on every fourth child", "E6 vchild tsync + -race + strace", "DESIGN.md 3/C10",
+         "Child processes with 1..64 pinned OS threads in PRNG mixes of states (spinning, tight probe loop, nanosleep, blocked in read, blocked in futex) plus spawners that create threads during the load; the loader is delayed by a PRNG amount and GOMAXPROCS varies; each thread logs for every probe whether it had seen the loaded flag before beginning the syscall and whether the syscall was filtered; offline: flag seen implies filtered (thread-sync), pre-existing other threads never filtered (no thread-sync); the flags word is compared at hook H3 and, sampled, at the syscall boundary.",
+         "Interleavings are reached by stress, not enumerated; the number of distinct interleaving signatures seen is reported. The kernel provides the guarantee; the library's part is passing the flag."),
+ "C11": ("exploration", "forced schedules at hook H3 (Gosched storm, forced goroutine migration) in privileged and unprivileged children, thread ids and call order observed by strace", "E6 vchild nnp + strace + hook H3", "DESIGN.md 3/C11",
+         "One child per (schedule mode, privilege, NoNewPrivs, flags): between prctl and seccomp hook H3 runs nothing, a Gosched storm, or pins the current OS thread under another goroutine so the loading goroutine cannot return to it; strace records which thread issued prctl(PR_SET_NO_NEW_PRIVS, 1) and seccomp(2) and in which order; /proc state of all tasks before/after; unprivileged loads must succeed iff NoNewPrivs was requested and must leave no filter when they fail.",
+         "Three schedule families, not all schedules; a refused migration (goroutine locked to its thread) counts as the property holding."),
 }
 
 def main():
